@@ -66,6 +66,10 @@ DefaultOf(k) ==
 DefaultParams ==
   {Put(Named(ScalarKinds[k], loc, FALSE), "default", DefaultOf(k)) :
       k \in {"int_rng", "num", "str_len", "bool", "str_date", "int"}, loc \in {"query", "header", "formData"}}
+\* required AND a default: the default documents a value, it does not make the parameter optional - a request without
+\* the parameter is still refused
+RequiredDefaultParams ==
+  {Put(Named(ScalarKinds[k], loc, TRUE), "default", DefaultOf(k)) : k \in {"int_rng", "str_len"}, loc \in {"query", "header", "formData"}}
 AllowEmptyParams ==
   {Put(Named(ScalarKinds[k], loc, req), "allowEmpty", TRUE) :
       k \in {"int", "str_len", "bool"}, loc \in {"query", "formData"}, req \in BOOLEAN}
@@ -99,7 +103,7 @@ NestedPlainParams ==
 ArrayDefaultParams ==
   {Put(Named(ArrayOf("i_int", cf), loc, FALSE), "default", Arr(<<Num(4), Num(6)>>)) : cf \in {"none", "pipes"}, loc \in {"query", "header"}}
 
-Params == {p \in ScalarParams : ScalarOK(p)} \cup DefaultParams \cup AllowEmptyParams
+Params == {p \in ScalarParams : ScalarOK(p)} \cup DefaultParams \cup RequiredDefaultParams \cup AllowEmptyParams
           \cup {p \in ArrayParams : ArrayOK(p)} \cup ArrayCountParams \cup NestedParams \cup NestedPlainParams \cup NestedDefaultParams \cup Nested3Params \cup ArrayDefaultParams
 
 \* file parameters (multipart upload): the value is the content of the file; minLength / maxLength bound its
